@@ -30,6 +30,10 @@ def _units():
         units.append({"id": f"C02.e2.leaf.{n}", "props": ["C02"], "kind": "leaf_arm", "file": "src/run_prim.rs", "fn": "run_prim_func",
                       "arm": r"Primitive::" + n, "prim": n, "target": "",
                       "desc": f"leaf {n}: the run-time arm moves exactly ({n}.args(), {n}.outputs()) values (numbers read from the real definitions table); nothing beneath is touched, also on failure"})
+    for n in leafarms.sys_arm_names():
+        units.append({"id": f"C02.e2.sysleaf.{n}", "props": ["C02"], "kind": "leaf_arm", "file": "src/sys/mod.rs", "fn": "run_sys_op",
+                      "arm": r"SysOp::" + n, "prim": "Sys_" + n, "lenient": True, "target": "",
+                      "desc": f"system function {n}: the run-time arm of run_sys_op moves exactly the (args, outputs) values its entry in the definitions table declares; nothing beneath is touched, also on failure"})
     return units
 
 
@@ -141,10 +145,10 @@ def _emit_unit(gen, u):
             if kind == "leaf_arm":
                 import leafarms
                 abody, is_block, span = extract.find_arm(src, u["arm"], info["body_start"], info["body_end"])
-                rep["source"] = f"{u['file']}:{extract.line_of(src, span[0])}-{extract.line_of(src, span[1])} (arm of run_prim_func)"
+                rep["source"] = f"{u['file']}:{extract.line_of(src, span[0])}-{extract.line_of(src, span[1])} (arm of {u['fn']})"
                 rep["verbatim_sha256"] = __import__("hashlib").sha256(abody.encode()).hexdigest()
                 try:
-                    norm, rlog = leafarms.normalise(abody, is_block)
+                    norm, rlog = leafarms.normalise(abody, is_block, lenient=bool(u.get("lenient")))
                 except leafarms.NotLeafShaped as ex:
                     raise extract.AnchorLost(f"arm is no longer leaf-shaped: {ex}")
                 rep["rewrites"] = [{"rewrite": "R8", "what": x} for x in rlog]
